@@ -27,7 +27,7 @@ ASSUMPTIONS = [
 BADCOMPILE = ['return 5', 'yield 5', 'break', 'continue', 'nonlocal sim_x', 'def sim_bad(a, a): pass',
               '__debug__ = 1', 'from __future__ import nope']
 KINDS = ['wrong', 'raise_direct', 'raise_called', 'raise_helper', 'raise_helper', 'badcompile', 'bad_repr', 'bad_repr',
-         'import_error', 'baddirective', 'trace', 'stream', 'none', 'wantcorrupt', 'ignore_want_exc']
+         'import_error', 'baddirective', 'trace', 'stream', 'none', 'wantcorrupt', 'ignore_want_exc', 'zero']
 
 
 def _helper_shape(rng, world, dtid_pick=None):
@@ -75,6 +75,17 @@ def generate(rng, tier):
     target_dt = None
     if kind == 'raise_helper':
         target_dt, target_pid = _helper_shape(rng, world)
+    zero_cmd = None
+    if kind == 'zero':
+        # functions without a docstring, run through the implicit examples of the native runner
+        zmod = rng.choice(world['modules'])
+        only = rng.random() < 0.5
+        if only:
+            zmod['items'] = []
+        zs = gen.add_zero_funcs(rng, zmod, rng.randint(1, 3))
+        target_dt, target_pid = rng.choice(zs)
+        zname = target_dt.split('::')[1].split(':')[0]
+        zero_cmd = rng.choice(['zero-all', 'zero-all', zname]) if only else zname
     ids = gen.doctest_ids(world)
     if kind in ('badcompile', 'baddirective'):
         cands = [(dtid, dt) for dtid, dt, mod in W.iter_doctests(world)]
@@ -128,7 +139,7 @@ def generate(rng, tier):
                     dt['steps'][0]['sep'] = 'none'
         else:
             kind = 'none'
-    rerun = rng.random() < 0.25
+    rerun = rng.random() < 0.25 and kind != 'zero'
     if rerun and rng.random() < 0.6:
         # parts that are switched off, in a doctest that is run more than once
         tgt = target_dt or rng.choice(ids)
@@ -149,6 +160,8 @@ def generate(rng, tier):
         target_dt = rng.choice(ids)
     target_mod = [m for m in world['modules'] if target_dt.startswith(m['name'] + '::')][0]
     n_runs = 1
+    if kind == 'zero':
+        shape = rng.choice(['runner', 'runner', 'cli'])
     if rerun:
         shape = 'obj'
         n_runs = rng.randint(2, 3)
@@ -163,9 +176,9 @@ def generate(rng, tier):
             # the same object again: what is recorded is about this run
             ops.append({'op': 'run_obj', 'dt': target_dt, 'verbose': rng.choice([verbose, 0]), 'on_error': 'return', 'mode': mode})
     elif shape == 'runner':
-        ops.append({'op': 'runner', 'target': target_mod['relpath'], 'command': 'all', 'verbose': verbose})
+        ops.append({'op': 'runner', 'target': target_mod['relpath'], 'command': zero_cmd or 'all', 'verbose': verbose})
     else:
-        ops.append({'op': 'cli', 'argv': ['PATH:' + target_mod['relpath'], 'all', '--verbose=%d' % verbose]})
+        ops.append({'op': 'cli', 'argv': ['PATH:' + target_mod['relpath'], zero_cmd or 'all', '--verbose=%d' % verbose]})
     if rng.random() < 0.5:
         # how the report is rendered is an option: every choice must render every failure
         rc_cfg = {'reportchoice': rng.choice(['udiff', 'cdiff', 'ndiff', 'none', 'only_first_failure']),
@@ -178,6 +191,7 @@ def generate(rng, tier):
     ops.append({'op': 'probe'})
     # ---- plan
     plan = []
+    ascii_terminal = False
     pts = common.points_of(world, target_dt)
     k = 0
     if kind == 'wrong' and pts:
@@ -197,6 +211,11 @@ def generate(rng, tier):
     elif kind == 'raise_helper':
         plan.append({'dt': target_dt, 'k': k, 'pid': target_pid, 'kind': 'raise',
                      'exc': rng.choice(['ValueError', 'KeyError', 'SimError']), 'msg': 'fault in helper'})
+    elif kind == 'zero':
+        if rng.random() < 0.8:
+            plan.append({'dt': target_dt, 'k': k, 'pid': target_pid, 'kind': 'raise',
+                         'exc': rng.choice(['ValueError', 'KeyError', 'ZeroDivisionError', 'SimError']), 'msg': 'fault in ' + target_pid,
+                         'depth': rng.choice([0, 0, 2])})
     elif kind == 'ignore_want_exc' and iw_pid:
         plan.append({'dt': target_dt, 'k': k, 'pid': iw_pid, 'kind': 'raise',
                      'exc': rng.choice(['ValueError', 'KeyError', 'ZeroDivisionError', 'SimError']), 'msg': 'fault ' + iw_pid,
@@ -217,8 +236,18 @@ def generate(rng, tier):
                 op['verbose'] = rng.choice([2, 3])
             if op['op'] == 'cli':
                 op['argv'][-1] = '--verbose=3'
-        plan.append({'dt': target_dt, 'k': k, 'stream_write': rng.randint(0, 4),
-                     'exc': rng.choice(['BlockingIOError', 'UnicodeEncodeError', 'OSError'])})
+        printed = [p for p in pts if p['form'] == 'print']
+        if printed and rng.random() < 0.4:
+            # a terminal that cannot show everything, and an answer -- not in the source text --
+            # that it cannot show: every write of it fails, not just one.  (Only an answer the
+            # doctest *prints*: the failing write is then the doctest's own.  A value that is
+            # compared and then shown in a report is the report's text, and a terminal that
+            # cannot show the report is not something a run can survive.)
+            plan.append({'dt': target_dt, 'k': k, 'pid': rng.choice(printed)['pid'], 'kind': 'nonascii'})
+            ascii_terminal = True
+        else:
+            plan.append({'dt': target_dt, 'k': k, 'stream_write': rng.randint(0, 4),
+                         'exc': rng.choice(['BlockingIOError', 'UnicodeEncodeError', 'OSError'])})
     if n_runs > 1:
         # the same behaviour in every run of the target (faults are addressed per execution)
         for f in list(plan):
@@ -230,6 +259,15 @@ def generate(rng, tier):
     if rng.random() < 0.12:
         # the host program limits how much of a traceback the standard library formats
         env['tracebacklimit'] = rng.choice([0, 1, 2])
+    if ascii_terminal:
+        env['ascii_terminal'] = True
+    if rng.random() < 0.1:
+        # code under test that leaves the process in a directory that no longer exists
+        taken = set((f.get('dt'), f.get('k'), f.get('pid')) for f in plan)
+        d = rng.choice(ids or [target_dt])
+        cand = [p for p in common.points_of(world, d) if (d, 0, p['pid']) not in taken]
+        if cand:
+            plan.append({'dt': d, 'k': 0, 'pid': rng.choice(cand)['pid'], 'kind': 'rmcwd'})
     if rng.random() < 0.3:
         # code under test that also emits a warning (before it fails, or in another doctest)
         taken = set((f.get('dt'), f.get('k'), f.get('pid')) for f in plan)
